@@ -140,6 +140,13 @@ func runPhase(env Env, p Property, ph Phase, seed uint64, deadline int64, known 
 				agg.Violation = &FoundViolation{Run: 0, V: Violation{Class: "process-crash", Sig: "process-crash", Detail: lastLines(stderrs[k].String(), 12)}, Scenario: raw}
 				continue
 			}
+			if exitCode(errs[k]) == ExitHung {
+				hf := filepath.Join(outDir, fmt.Sprintf("w%d.hung", k))
+				if raw, rerr := os.ReadFile(hf); rerr == nil {
+					agg.Violation = &FoundViolation{Run: 0, V: Violation{Class: "non-termination", Sig: hungSig(stderrs[k].String()), Detail: hungDetail(stderrs[k].String())}, Scenario: raw}
+					continue
+				}
+			}
 			if ph.Race && exitCode(errs[k]) == 66 {
 				rf := filepath.Join(outDir, fmt.Sprintf("w%d.racing", k))
 				if raw, rerr := os.ReadFile(rf); rerr == nil {
@@ -314,6 +321,8 @@ func execSeq(env Env, p Property, phase Phase, prelude []json.RawMessage, raw []
 		switch exitCode(rerr) {
 		case 66:
 			return "data-race", raceSig(out), firstLines(raceSummary(out), 30), out, nil
+		case ExitHung:
+			return "non-termination", hungSig(out), hungDetail(out), out, nil
 		case 3:
 			// violation reported by exec
 		default:
@@ -430,7 +439,7 @@ func report(env Env, p Property, ph Phase, seed uint64, fv *FoundViolation, know
 				okc = class == fv.V.Class
 			}
 		}
-		if !okc && fv.N > 0 && fv.V.Class != "data-race" && fv.V.Class != "process-crash" {
+		if !okc && fv.N > 0 && fv.V.Class != "data-race" && fv.V.Class != "process-crash" && fv.V.Class != "non-termination" {
 			if path, code, handled := reportWithHistory(env, p, ph, seed, fv, known); handled {
 				return path, code
 			}
@@ -447,7 +456,7 @@ func report(env Env, p Property, ph Phase, seed uint64, fv *FoundViolation, know
 	// minimise
 	maxTests, maxDur := 3000, 90*time.Second
 	var tester Tester
-	if fv.V.Class == "data-race" || fv.V.Class == "process-crash" {
+	if fv.V.Class == "data-race" || fv.V.Class == "process-crash" || fv.V.Class == "non-termination" {
 		maxTests, maxDur = 60, 150*time.Second
 		tester = func(raw []byte) bool {
 			if _, err := p.Decode(raw); err != nil {
